@@ -21,7 +21,7 @@ theorem Shr.trans {a b c : Conn} {x : Nat} (h1 : Shr a b x) (h2 : Shr b c x) : S
     exact ⟨k1.1, k2.2.trans k1.2⟩⟩
 
 theorem shr_of_eq (c c' : Conn) (x : Nat) (hh : c'.held x = c.held x) (hl : c'.liveS x = true → c.liveS x = true) :
-    Shr c c' x := ⟨by rw [hh], fun h => ⟨hl h, hh⟩⟩
+    Shr c c' x := ⟨by rw [hh]; exact List.prefix_refl _, fun h => ⟨hl h, hh⟩⟩
 
 theorem norev_rawSend (c : Conn) (s x : Nat) (d : Bytes) (fin : Bool) (h : (c.rawSend s d fin).liveS x = true) :
     c.liveS x = true := by
@@ -52,7 +52,9 @@ theorem flushLoop_norev (f : Nat) (c : Conn) (s x : Nat) (w : Int) (sent : Bool)
         simp only [] at h
         by_cases hbig : (ch.data.length : Int) > min w (c.mfs : Int)
         · simp only [hbig, if_true, List.isEmpty_cons, Bool.false_eq_true, if_false] at h
-          exact norev_rawSend c s x _ false (ih _ _ _ h)
+          have h0 := ih _ _ _ h
+          have h1 : (c.rawSend s (ch.data.take (min w (c.mfs : Int)).toNat) false).liveS x = true := h0
+          exact norev_rawSend c s x _ false h1
         · simp only [hbig, if_false] at h
           by_cases hre : rest.isEmpty = true
           · simp only [hre, if_true] at h
@@ -61,9 +63,13 @@ theorem flushLoop_norev (f : Nat) (c : Conn) (s x : Nat) (w : Int) (sent : Bool)
               have h2 : (Conn.rawTrailers ({ (c.rawSend s ch.data ch.fin) with bufs := aerase s (c.rawSend s ch.data ch.fin).bufs } : Conn) s).liveS x = true := h1
               have h3 := norev_rawTrailers _ s x h2
               exact norev_rawSend c s x _ _ h3
-            · exact norev_rawSend c s x _ _ (ih _ _ _ h)
+            · have h0 := ih _ _ _ h
+              have h1 : (c.rawSend s ch.data ch.fin).liveS x = true := h0
+              exact norev_rawSend c s x _ _ h1
           · simp only [hre, Bool.false_eq_true, if_false] at h
-            exact norev_rawSend c s x _ _ (ih _ _ _ h)
+            have h0 := ih _ _ _ h
+            have h1 : (c.rawSend s ch.data ch.fin).liveS x = true := h0
+            exact norev_rawSend c s x _ _ h1
     · simp only [hw, if_false] at h; exact h
 
 theorem held_erase_prefix (c : Conn) (s x : Nat) : ({ c with bufs := aerase s c.bufs } : Conn).held x <+: c.held x := by
@@ -195,5 +201,338 @@ theorem absorb_shr (c : Conn) (evs : List SEv) (x : Nat) : Shr c (c.absorb evs) 
     cases hl : (c1.absorbBuf e).liveS x with
     | false => rfl
     | true => rw [(st.2 hl).1] at k; cases k
+
+/-! ### one client event -/
+
+def dataBytes : List Ev → Bytes
+  | [] => []
+  | .data b :: rest => b ++ dataBytes rest
+  | _ :: rest => dataBytes rest
+
+theorem dataBytes_append (a b : List Ev) : dataBytes (a ++ b) = dataBytes a ++ dataBytes b := by
+  induction a with
+  | nil => rfl
+  | cons e rest ih => cases e <;> simp [dataBytes, ih]
+
+theorem held_sendTrailers (c : Conn) (s x : Nat) : (c.sendTrailers s).held x = c.held x := by
+  unfold Conn.sendTrailers
+  split
+  · rfl
+  · unfold Conn.held Conn.bufBytes
+    rw [(held_rawTrailers c s x).1, (held_rawTrailers c s x).2]
+
+theorem held_endStream (c : Conn) (s x : Nat) : (c.endStream s).held x = c.held x := by
+  unfold Conn.endStream
+  split
+  · rfl
+  · rw [held_sendData]; split <;> simp
+
+theorem held_resetStream (c : Conn) (s x : Nat) :
+    (c.resetStream s).held x = dataOf x c.out ++ (if s = x then [] else c.bufBytes x) := by
+  unfold Conn.resetStream
+  simp only []
+  unfold Conn.held Conn.bufBytes
+  have hb : (Conn.updS ({ c with bufs := aerase s c.bufs } : Conn) s (fun st => { st with rst := true })).buf x
+      = if s = x then [] else c.buf x := by rw [buf_updS, buf_aerase]
+  have ho : (Conn.updS ({ c with bufs := aerase s c.bufs } : Conn) s (fun st => { st with rst := true })).out = c.out := by
+    rw [out_updS]
+  show dataOf x ((Conn.updS ({ c with bufs := aerase s c.bufs } : Conn) s (fun st => { st with rst := true })).out ++ [Frame.rst s])
+    ++ chunkBytes ((Conn.updS ({ c with bufs := aerase s c.bufs } : Conn) s (fun st => { st with rst := true })).buf x) = _
+  rw [hb, ho, dataOf_append]
+  split <;> simp [dataOf, chunkBytes]
+
+theorem held_procConn_hdr (c : Conn) (o x : Nat) (fin : Bool) : (procConn c o (.hdr fin)).held x = c.held x := by
+  unfold Conn.held Conn.bufBytes
+  show dataOf x (c.out ++ [Frame.hdr o fin]) ++ chunkBytes (c.buf x) = _
+  rw [dataOf_append]; simp [dataOf]
+
+theorem procConn_shr_other (c : Conn) (o x : Nat) (ev : Ev) (h : o ≠ x) : Shr c (procConn c o ev) x := by
+  refine shr_of_eq _ _ x ?_ (fun e => by rw [← (procConn_untouched c o x ev h).2.1]; exact e)
+  cases ev with
+  | hdr fin => exact held_procConn_hdr c o x fin
+  | data b => simp only [procConn]; split; rw [held_sendData]; simp [h]; rfl
+  | trailers => simp only [procConn]; split; exact held_sendTrailers c o x; rfl
+  | eom => simp only [procConn]; split; exact held_endStream c o x; rfl
+  | err => simp only [procConn]; split; rw [held_resetStream]; simp only [h, if_false]; rfl; rfl
+
+/-- for its upstream stream: a prefix of the body data handed over so far, all of it while the stream may send -/
+def PB (c : Conn) (o : Nat) (B : Bytes) : Prop := c.held o <+: B ∧ (c.liveS o = true → c.held o = B)
+
+theorem pb_shr {c c' : Conn} {o : Nat} {B : Bytes} (h : PB c o B) (s : Shr c c' o) : PB c' o B :=
+  ⟨s.1.trans h.1, fun hl => (s.2 hl).2.trans (h.2 (s.2 hl).1)⟩
+
+theorem procConn_pb_self (c : Conn) (o : Nat) (F : List Ev) (ev : Ev) (hnh : ev.isHdr = false)
+    (h : PB c o (dataBytes F)) : PB (procConn c o ev) o (dataBytes (F ++ [ev])) := by
+  rw [dataBytes_append]
+  cases ev with
+  | hdr fin => simp [Ev.isHdr] at hnh
+  | data b =>
+    simp only [procConn, dataBytes, List.append_nil]
+    split
+    · rename_i hl
+      have e : (c.sendData o b false).held o = dataBytes F ++ b := by
+        rw [held_sendData, h.2 hl]; simp
+      exact ⟨by rw [e]; exact List.prefix_refl _, fun _ => e⟩
+    · rename_i hl
+      exact ⟨h.1.trans (List.prefix_append _ _), fun e => absurd e hl⟩
+  | trailers =>
+    simp only [dataBytes, List.append_nil]
+    refine pb_shr h ?_
+    simp only [procConn]
+    split
+    · rename_i hl
+      exact shr_of_eq _ _ o (held_sendTrailers c o o) (fun _ => hl)
+    · exact Shr.rfl' c o
+  | eom =>
+    simp only [dataBytes, List.append_nil]
+    refine pb_shr h ?_
+    simp only [procConn]
+    split
+    · rename_i hl
+      exact shr_of_eq _ _ o (held_endStream c o o) (fun _ => hl)
+    · exact Shr.rfl' c o
+  | err =>
+    simp only [dataBytes, List.append_nil]
+    refine pb_shr h ?_
+    simp only [procConn]
+    split
+    · refine ⟨?_, fun hl => ?_⟩
+      · rw [held_resetStream]; simp only [if_true, List.append_nil]
+        unfold Conn.held; exact List.prefix_append _ _
+      · rw [liveS_resetStream_same] at hl; cases hl
+    · exact Shr.rfl' c o
+
+/-! ### the whole client -/
+
+structure BInv (σ : St) : Prop where
+  fresh : ∀ x, σ.nextId ≤ x → σ.conn.held x = []
+  pb : ∀ t o, alookup t σ.ours = some o → PB σ.conn o (dataBytes (fwOf t σ))
+
+theorem held_nil_shr {c c' : Conn} {x : Nat} (h : c.held x = []) (s : Shr c c' x) : c'.held x = [] := by
+  have := s.1; rw [h] at this; exact List.prefix_nil.mp this
+
+theorem bInv_congr (σ σ' : St) (h1 : σ'.conn = σ.conn) (h2 : σ'.nextId = σ.nextId) (h3 : σ'.ours = σ.ours)
+    (h4 : σ'.fw = σ.fw) (h : BInv σ) : BInv σ' := by
+  refine ⟨?_, ?_⟩
+  · intro x hx; rw [h1]; rw [h2] at hx; exact h.fresh x hx
+  · intro t o ho
+    rw [h3] at ho
+    have : fwOf t σ' = fwOf t σ := by unfold fwOf; rw [h4]
+    rw [h1, this]; exact h.pb t o ho
+
+theorem midMapped_b (σ : St) (t o : Nat) (ev : Ev) (rest : List (Nat × Ev)) (h : DrainInv σ) (hs : BInv σ)
+    (hst : σ.stack = (t, ev) :: rest) (ho : alookup t σ.ours = some o) : BInv (midMapped σ t o ev rest) := by
+  obtain ⟨f1, f2, f3, f4, f5, f6, f7, f8, f9, _, f11⟩ := midMapped_fields σ t o ev rest
+  have hconn : (midMapped σ t o ev rest).conn = procConn σ.conn o ev := process_conn ({ σ with stack := rest } : St) o ev
+  have hsk := h.st
+  unfold StackOk at hsk
+  rw [hst] at hsk
+  obtain ⟨_, hmap, _⟩ := hsk
+  have hnh : ev.isHdr = false := hmap (by rw [ho]; rfl)
+  have hlt : o < σ.nextId := h.map.lt o t (h.map.fwd t o ho)
+  refine ⟨?_, ?_⟩
+  · intro x hx
+    rw [f11, hnh] at hx
+    have hx' : σ.nextId ≤ x := by simpa using hx
+    have hne : o ≠ x := by omega
+    rw [hconn]
+    exact held_nil_shr (hs.fresh x hx') (procConn_shr_other σ.conn o x ev hne)
+  · intro t2 o2 ho2
+    rw [f1] at ho2
+    have hfw : fwOf t2 (midMapped σ t o ev rest) = fwOf t2 σ ++ (if t = t2 then [ev] else []) := by
+      unfold fwOf; rw [f6]; exact fwOf_snoc t t2 o ev σ.fw
+    rw [hconn, hfw]
+    by_cases htt : t = t2
+    · subst htt
+      rw [ho] at ho2; cases ho2
+      simp only [if_true]
+      exact procConn_pb_self σ.conn o (fwOf t σ) ev hnh (hs.pb t o ho)
+    · simp only [htt, if_false, List.append_nil]
+      have hne : o ≠ o2 := by
+        intro e; subst e
+        have a := h.map.fwd t o ho
+        have b := h.map.fwd t2 o ho2
+        rw [a] at b; cases b; exact htt rfl
+      exact pb_shr (hs.pb t2 o2 ho2) (procConn_shr_other σ.conn o o2 ev hne)
+
+theorem midAlloc_b (σ : St) (t : Nat) (ev : Ev) (rest : List (Nat × Ev)) (h : DrainInv σ) (hs : BInv σ)
+    (hst : σ.stack = (t, ev) :: rest) (ho : alookup t σ.ours = none) : BInv (midAlloc σ t ev rest) := by
+  obtain ⟨f1, f2, f3, f4, f5, f6, f7, f8, f9, _, f11⟩ := midAlloc_fields σ t ev rest
+  let σ1 : St := { σ with stack := rest, ours := σ.ours ++ [(t, σ.nextId)], theirs := aset σ.nextId t σ.theirs,
+                          allocs := σ.allocs ++ [(t, σ.conn.openCount, σ.limit)] }
+  have hconn : (midAlloc σ t ev rest).conn = procConn σ.conn σ.nextId ev := process_conn σ1 σ.nextId ev
+  have hsk := h.st
+  unfold StackOk at hsk
+  rw [hst] at hsk
+  obtain ⟨_, _, hun⟩ := hsk
+  have hh : ev.isHdr = true := (hun ho).1
+  refine ⟨?_, ?_⟩
+  · intro x hx
+    rw [f11, hh] at hx
+    have hx' : σ.nextId + 2 ≤ x := by simpa using hx
+    have hne : σ.nextId ≠ x := by omega
+    rw [hconn]
+    exact held_nil_shr (hs.fresh x (by omega)) (procConn_shr_other σ.conn σ.nextId x ev hne)
+  · intro t2 o2 ho2
+    rw [f1, alookup_append] at ho2
+    have hfw : fwOf t2 (midAlloc σ t ev rest) = fwOf t2 σ ++ (if t = t2 then [ev] else []) := by
+      unfold fwOf; rw [f6]; exact fwOf_snoc t t2 σ.nextId ev σ.fw
+    rw [hconn, hfw]
+    cases hl : alookup t2 σ.ours with
+    | some o' =>
+      rw [hl] at ho2
+      simp only [Option.some.injEq] at ho2
+      subst ho2
+      have htt : ¬ t = t2 := by intro e; subst e; rw [ho] at hl; cases hl
+      simp only [htt, if_false, List.append_nil]
+      have hlt : o' < σ.nextId := h.map.lt o' t2 (h.map.fwd t2 o' hl)
+      have hne : σ.nextId ≠ o' := by omega
+      exact pb_shr (hs.pb t2 o' hl) (procConn_shr_other σ.conn σ.nextId o' ev hne)
+    | none =>
+      rw [hl] at ho2
+      simp only [alookup] at ho2
+      by_cases htt : t = t2
+      · subst htt
+        simp only [if_true, Option.some.injEq] at ho2
+        subst ho2
+        rw [fwOf_nil_of_unmapped σ h.fw t ho]
+        simp only [if_true, List.nil_append]
+        cases ev with
+        | hdr fin =>
+          have k := hs.fresh σ.nextId (Nat.le_refl _)
+          have e : (procConn σ.conn σ.nextId (Ev.hdr fin)).held σ.nextId = [] := by
+            rw [held_procConn_hdr]; exact k
+          exact ⟨by rw [e]; exact List.nil_prefix, fun _ => by rw [e]; rfl⟩
+        | data b => simp [Ev.isHdr] at hh
+        | trailers => simp [Ev.isHdr] at hh
+        | eom => simp [Ev.isHdr] at hh
+        | err => simp [Ev.isHdr] at hh
+      · simp [htt] at ho2
+
+theorem resume_b (σ : St) (h : BInv σ) : BInv σ.resume := by
+  unfold St.resume
+  split
+  · exact h
+  · split
+    · exact h
+    · exact bInv_congr σ _ rfl rfl rfl rfl h
+
+theorem tick_b (σ : St) (h : DrainInv σ) (hs : BInv σ) (hne : σ.stack ≠ []) (hc : σ.closed = false) :
+    BInv σ.tick := by
+  cases hst : σ.stack with
+  | nil => exact absurd hst hne
+  | cons q rest =>
+    obtain ⟨t, ev⟩ := q
+    rw [tick_eq σ t ev rest hst hc]
+    cases ho : alookup t σ.ours with
+    | some o => exact resume_b _ (midMapped_b σ t o ev rest h hs hst ho)
+    | none =>
+      simp only []
+      split
+      · exact bInv_congr σ _ rfl rfl rfl rfl hs
+      · exact resume_b _ (midAlloc_b σ t ev rest h hs hst ho)
+
+theorem drain_b (f : Nat) (σ : St) (h : DrainInv σ) (hs : BInv σ) (hc : σ.closed = false) :
+    BInv (St.drain f σ) := by
+  induction f generalizing σ with
+  | zero => exact hs
+  | succ f ih =>
+    by_cases he : σ.stack = []
+    · rw [drain_of_empty _ _ he]; exact hs
+    · have ht := tick_drain σ h he hc
+      have : St.drain (f + 1) σ = St.drain f σ.tick := by
+        simp only [St.drain]
+        have : σ.stack.isEmpty = false := by cases hs' : σ.stack <;> simp_all
+        simp [this]
+      rw [this]
+      exact ih σ.tick ht.1 (tick_b σ h hs he hc) ht.2.2
+
+theorem step_client_b (σ : St) (t : Nat) (ev : Ev) (h : QInv σ) (hs : BInv σ) (hc : σ.closed = false)
+    (hg : Good σ t ev) : BInv (σ.step (.client t ev)) := by
+  rw [step_client_eq σ t ev hc]
+  have hca : (arrive σ t ev).closed = false := hc
+  have ha : BInv (arrive σ t ev) := ⟨hs.fresh, fun t2 o2 ho2 => hs.pb t2 o2 ho2⟩
+  by_cases hcase : (alookup t σ.ours).isSome = true ∨ σ.noFree = false
+  · exact drain_b _ _ (arrive_drainInv σ t ev h hg hcase) ha hca
+  · have hn : alookup t σ.ours = none := by
+      cases ho : alookup t σ.ours with
+      | none => rfl
+      | some o => exact absurd (Or.inl (by rw [ho]; rfl)) hcase
+    have hnf : σ.noFree = true := by
+      cases hf : σ.noFree with
+      | true => rfl
+      | false => exact absurd (Or.inr hf) hcase
+    have htick : (arrive σ t ev).tick = enqueued σ t ev := by
+      rw [tick_eq (arrive σ t ev) t ev [] rfl hca]
+      have : alookup t (arrive σ t ev).ours = none := hn
+      rw [this]
+      have hnf' : ({ (arrive σ t ev) with stack := [] } : St).noFree = true := by
+        rw [← hnf]; exact noFree_congr _ _ rfl rfl rfl
+      simp only [hnf', if_true]
+      rfl
+    have : St.drain ((arrive σ t ev).pending + 1) (arrive σ t ev) = enqueued σ t ev := by
+      simp only [St.drain]
+      have : (arrive σ t ev).stack.isEmpty = false := rfl
+      simp only [this, Bool.false_eq_true, if_false, htick]
+      exact drain_of_empty _ _ rfl
+    rw [this]
+    exact bInv_congr (arrive σ t ev) _ rfl rfl rfl rfl ha
+
+theorem step_server_b (σ : St) (evs : List SEv) (h : Inv σ) (hs : BInv σ) : BInv (σ.step (.server evs)) := by
+  simp only [St.step]
+  by_cases hc : σ.closed = true
+  · rw [if_pos hc]; exact hs
+  · have hcf : σ.closed = false := by simpa using hc
+    rw [if_neg hc]
+    have hq := h.live hcf
+    let σa : St := { σ with conn := σ.conn.absorb evs,
+                            maxc := evs.foldl (fun m e => match e with | .settings (some v) _ _ => v | _ => m) σ.maxc }
+    have hsa : Same σ σa := ⟨rfl, rfl, rfl, rfl, rfl, rfl, rfl, rfl, rfl⟩
+    have hb_a : BInv σa :=
+      ⟨fun x hx => held_nil_shr (hs.fresh x hx) (absorb_shr σ.conn evs x),
+       fun t o ho => pb_shr (hs.pb t o ho) (absorb_shr σ.conn evs o)⟩
+    have hma : MapInv σa := mapInv_of_same hsa h.map
+    have hua : UpOk σa := h.up
+    have hb := handleAll_ok evs σa hma hua
+    have hsb : Same σ (St.handleAll σa evs) := hsa.trans hb.1
+    have hb_b : BInv (St.handleAll σa evs) :=
+      bInv_congr σa _ (handleAll_conn evs σa) hb.1.nextId hb.1.ours hb.1.fw hb_a
+    show BInv (if (St.handleAll σa evs).closed = true then (St.handleAll σa evs).failQueued
+      else St.drain ((St.handleAll σa evs).resume.pending + 1) (St.handleAll σa evs).resume)
+    by_cases hcb : (St.handleAll σa evs).closed = true
+    · simp only [hcb, if_true]
+      exact bInv_congr (St.handleAll σa evs) _ rfl rfl rfl rfl hb_b
+    · have hcbf : (St.handleAll σa evs).closed = false := by simpa using hcb
+      simp only [hcb]
+      have hmid := midInv_of_same hsb hb.2 hq
+      have hdr := resume_inv _ hmid
+      have hcl : (St.handleAll σa evs).resume.closed = false := by rw [(resume_pending _).2]; exact hcbf
+      exact drain_b _ _ hdr (resume_b _ hb_b) hcl
+
+theorem step_connClosed_b (σ : St) (h : Inv σ) (hs : BInv σ) : BInv (σ.step .connClosed) := by
+  simp only [St.step]
+  by_cases hc : σ.closed = true
+  · rw [if_pos hc]; exact hs
+  · rw [if_neg hc]
+    have cc := closeConnection_ok σ h.map h.up
+    exact bInv_congr σ.closeConnection _ rfl rfl rfl rfl
+      (bInv_congr σ _ (closeConnection_conn σ) cc.1.nextId cc.1.ours cc.1.fw hs)
+
+theorem init_b : BInv St.init := by
+  refine ⟨fun x _ => rfl, ?_⟩
+  intro t o ho; simp [St.init, alookup] at ho
+
+/-- the byte invariant holds in every reachable state (`Reach`: only the head-first hypothesis `Good` is needed) -/
+theorem reach_b (σ : St) (h : Reach σ) : BInv σ := by
+  induction h with
+  | init => exact init_b
+  | client σ t ev hr hg ih =>
+    by_cases hc : σ.closed = true
+    · have : σ.step (.client t ev) = σ := by simp [St.step, hc]
+      rw [this]; exact ih
+    · have hcf : σ.closed = false := by simpa using hc
+      exact step_client_b σ t ev ((reach_inv σ hr).live hcf) ih hcf hg
+  | server σ evs hr ih => exact step_server_b σ evs (reach_inv σ hr) ih
+  | connClosed σ hr ih => exact step_connClosed_b σ (reach_inv σ hr) ih
 
 end MitmVerif.C05
